@@ -75,7 +75,7 @@ def gen_template(rnd, ti):
 
 def near_copy(rnd, tpl):
     m = copy.deepcopy(tpl)
-    kind = rnd.choice(['exact', 'exact', 'position-only', 'charge', 'mass', 'param', 'meta', 'node-order', 'key-swap', 'key-swap', 'atomid', 'define', 'nrexcl'])
+    kind = rnd.choice(['exact', 'exact', 'position-only', 'charge', 'mass', 'param', 'meta', 'node-order', 'key-swap', 'key-swap', 'atomid', 'define', 'nrexcl', 'param-eps', 'param-eps'])
     if kind == 'charge':
         a = rnd.choice(m['atoms'])[1]
         a['charge'] = a['charge'] + 0.5
@@ -84,6 +84,11 @@ def near_copy(rnd, tpl):
         a['mass'] = a['mass'] + 1.0
     elif kind == 'param' and m['inter']:
         rnd.choice(m['inter'])[2][2] = '999'
+    elif kind == 'param-eps' and m['inter']:
+        # a numeric parameter that differs in the 7th significant digit (float force constants of two nearly identical
+        # conformations): a different topology all the same
+        it = rnd.choice(m['inter'])
+        it[2][1] = float(it[2][1]) * (1 + rnd.choice([1e-7, -3e-7, 2e-6]))
     elif kind == 'meta' and m['inter']:
         rnd.choice(m['inter'])[3]['ifdef'] = 'FLEX'
     elif kind == 'node-order' and len(m['atoms']) > 1:
